@@ -405,6 +405,18 @@ func (w *World) BuildMsg(e Event) (msg sdk.Msg, commit func()) {
 		tx := sim.BtcTx(uint32(50000+w.Bot.NextPid), outs...)
 		m := &bitcointypes.MsgProcessWithdrawal{Proposer: rel.Proposer, Id: ids, NoWitnessTx: tx, TxFee: uint64(len(tx))}
 		m.Vote = w.Vote(m.MethodName(), m.VoteSigDoc())
+		if e.Var == "ids-permuted-after-the-vote" {
+			// the vote was collected for the list in issue order; what is submitted lists the same ids
+			// the other way round (which output pays which withdrawal is part of what was voted)
+			if len(ids) < 2 {
+				return nil, nil
+			}
+			m.Id = append([]uint64{}, ids...)
+			for i, j := 0, len(m.Id)-1; i < j; i, j = i+1, j-1 {
+				m.Id[i], m.Id[j] = m.Id[j], m.Id[i]
+			}
+			return m, func() {}
+		}
 		return m, func() {
 			w.Bot.Batches[w.Bot.NextPid] = &batch{IDs: ids, Txs: [][]byte{tx}, Open: true, InBlock: map[int]uint64{}}
 			w.Bot.NextPid++
